@@ -4,11 +4,12 @@ import nodecheck
 PROFILE = dict(outbound=0.0, peers=2)
 W = nodecheck.weights(retransmit=9, request=7, app_answer=8, accept=4, cer=9)
 N_QUICK, N_THOROUGH, LENGTH = 60, 1500, 22
+THEMES = (("retransmit", 600, 0, None, 0),)
 FILES = ["Props/C17.v"]
 
 
 def check(run):
-    return nodecheck.run(run, "C17", FILES, PROFILE, W, N_QUICK, N_THOROUGH, LENGTH)
+    return nodecheck.run(run, "C17", FILES, PROFILE, W, N_QUICK, N_THOROUGH, LENGTH, themes=THEMES)
 
 
 replay = nodecheck.replay_generic
